@@ -84,6 +84,7 @@ CONSTANTS Langs,          \* subset of {"c","cpp","py","html"}
           Exts, Stems,    \* subsets of {"def","ovr"}: --output-extension / --namespace-output-stem given or not
           SupTpls,        \* subset of BOOLEAN: --support-templates given
           NsVals,         \* subset of BOOLEAN: --generate-namespace-types given
+          Shapes,         \* subset of {"plain","sibling","rsibling"}: textual relation of the directory names (see ShapeOf)
           Wipes,          \* TRUE: the environment may empty the output directory between invocations
           PFiles,         \* input classes that may be perturbed in a behaviour ({} = no perturbation)
           MaxLo, MaxLi, MaxDry, MaxRun,     \* how often each mode may be invoked in one behaviour
@@ -91,7 +92,9 @@ CONSTANTS Langs,          \* subset of {"c","cpp","py","html"}
           QuickOnly,      \* TRUE: only the combinations of the quick tier (case emission)
           FwdOmitToList,  \* _list_outputs_only forwards omit_serialization_support        (FALSE = code as found, D1)
           ListDeps,       \* _list_inputs_only names the lookup-dir DSDL files depended upon (FALSE = as found, D12)
-          ListUserSup     \* _list_inputs_only names a --support-templates file that shadows a built-in one (D15)
+          ListUserSup,    \* _list_inputs_only names a --support-templates file that shadows a built-in one (D15)
+          OwnByPrefix     \* HAZARD (FALSE = code as found): the root namespace's own files are told from dependencies by a
+                          \* textual path prefix instead of by identity -- wrong as soon as a lookup directory is <root>+suffix
 
 VARIABLES opts,     \* the option combination (chosen in Init)
           pfile,    \* the input class this behaviour may perturb ("none")
@@ -105,18 +108,35 @@ VARIABLES opts,     \* the option combination (chosen in Init)
 vars == <<opts, pfile, pert, out, pc, mode, printed, okf, pre, cnt, res, ps>>
 
 (* ---- language facts (transcribed from lang/properties.yaml and the template packages; bound by c08.py) ----     *)
-HasSerSupport(l) == l \in {"c", "cpp", "py"}       \* lang/<l>/support lists a SERIALIZATION_SUPPORT resource
-HasTypeSupport(l) == FALSE                          \* no language ships TYPE_SUPPORT resources
+HasSerSupport(l) == l \in {"c", "cpp"}             \* lang/<l>/support lists a SERIALIZATION_SUPPORT resource
+HasTypeSupport(l) == l = "py"                       \* ... a TYPE_SUPPORT resource (generated also with --omit-serialization-support)
 StdNsFiles(l) == l \in {"py", "html"}               \* has_standard_namespace_files
 BuiltinNsTemplate(l) == l \in {"py", "html"}        \* a Namespace.j2 (or Any.j2) among the built-in templates
 
 GsValues == {"always", "never", "as-needed", "only"}
 AllOpts == [lang : Langs, gs : GsValues, omit : BOOLEAN, ns : NsVals, tpl : BOOLEAN, suptpl : SupTpls,
-            lookup : BOOLEAN, ext : Exts, stem : Stems]
+            lookup : BOOLEAN, ext : Exts, stem : Stems, shape : Shapes]
+
+(* Directory-name shapes.  The tool must identify files, not compare path strings:                                  *)
+(*   "plain"     lookup roots live elsewhere under unrelated names; the output directory is <scratch>/out             *)
+(*   "sibling"   the lookup root is a sibling folder named <root>+suffix, the output directory a sibling <root>_out   *)
+(*   "rsibling"  the root is a sibling folder named <lookup>+suffix, the output directory a sibling <root>_out        *)
+(* (a lookup root NESTED in the root namespace folder is rejected by PyDSDL: outside the domain.)                     *)
+(* The shape is not multiplied into the executed product: every combination gets ONE shape, chosen so that all shapes *)
+(* meet all values of generate-support/omit/templates in every language; the thorough tier adds the other shapes     *)
+(* where it probes with lookup directories.                                                                          *)
+B2N(b) == IF b THEN 1 ELSE 0
+GsIdx(g) == CASE g = "always" -> 0 [] g = "never" -> 1 [] g = "as-needed" -> 2 [] g = "only" -> 3
+ShapeOf(o) ==
+    IF ~o.lookup THEN (IF o.ns THEN "sibling" ELSE "plain")      \* without lookup only the output directory's name differs
+    ELSE LET k == (GsIdx(o.gs) + B2N(o.omit) + B2N(o.tpl) + 2 * B2N(o.suptpl) + B2N(o.ext = "ovr")) % 3
+         IN IF k = 0 THEN "sibling" ELSE IF k = 1 THEN "rsibling" ELSE "plain"
 
 (* The quick tier executes: the full product for c (without --support-templates); for the other languages the     *)
 (* product with extension and stem overridden together; and --support-templates against generate-support x omit.  *)
 InQuick(o) ==
+  /\ o.shape = ShapeOf(o)
+  /\
     \/ o.lang = "c" /\ ~o.suptpl
     \/ o.lang # "c" /\ ~o.suptpl /\ o.ext = o.stem /\ (o.ext = "ovr") = (o.tpl = o.lookup)
     \/ o.suptpl /\ o.ext = "def" /\ o.stem = "def" /\ o.lookup /\ o.ns = o.tpl
@@ -127,6 +147,12 @@ ProbeQuick(o) ==
     /\ o.lang = "c" => (o.ext = "def" /\ o.stem = "def")
     /\ o.lang # "c" => (o.tpl = o.suptpl /\ o.gs \in {"as-needed", "only"})
 ProbeThorough(o) == o.ext = "def" /\ o.stem = "def"
+(* which combinations exist in a configuration: emission = one shape each (+ the others where the thorough tier probes *)
+(* with lookup directories); exhaustive exploration = every shape where there is a lookup directory to name           *)
+Selected(o) ==
+    IF Linear THEN (QuickOnly => InQuick(o))
+                   /\ (o.shape = ShapeOf(o) \/ (~QuickOnly /\ ProbeThorough(o) /\ o.lookup /\ ~o.ns))
+    ELSE o.lookup \/ o.shape = "plain"
 
 (* ---- abstract files.  Outputs are classes of files (all type files / all namespace files / all serialization     *)
 (* support files of the fixture), named by what determines their paths.  Inputs are classes as well.              *)
@@ -149,8 +175,7 @@ SupTemplateInForce(o) == IF o.suptpl THEN "supU" ELSE "supB"                    
 HasTemplateFor(o, kind) == o.tpl \/ kind = "type" \/ BuiltinNsTemplate(o.lang)     \* the fixture's user set has Any.j2
 Provider(o) == IF NsEffective(o) THEN {"ns", "type"} ELSE {"type"}                 \* get_all_types / get_all_datatypes
 (* SupportGenerator.get_templates(omit_serialization_support) -- resources, always the built-in ones               *)
-SupResources(o, omit) == (IF ~omit /\ HasSerSupport(o.lang) THEN {"supB"} ELSE {})
-                         \cup (IF HasTypeSupport(o.lang) THEN {"tsupB"} ELSE {})
+SupResources(o, omit) == IF (~omit /\ HasSerSupport(o.lang)) \/ HasTypeSupport(o.lang) THEN {"supB"} ELSE {}
 (* what the bytes of a generated file depend on (the most sensitive function of those inputs)                      *)
 TypeInfluencers(o) == {TypeTemplateInForce(o), "dsdlR"} \cup (IF o.lookup THEN {"dsdlD"} ELSE {})
 SupInfluencers(o) == {SupTemplateInForce(o)}
@@ -167,7 +192,7 @@ Max(m) == CASE m = "lo" -> MaxLo [] m = "li" -> MaxLi [] m = "dry" -> MaxDry [] 
 Sched == <<"lo", "li", "dry", "run">>
 
 Init ==
-    /\ opts \in IF QuickOnly THEN {o \in AllOpts : InQuick(o)} ELSE AllOpts
+    /\ opts \in {o \in AllOpts : Selected(o)}
     /\ pfile \in {"none"} \cup {f \in PFiles : Exists(opts, f)}
     /\ pert = {} /\ out = {} /\ pc = "idle" /\ mode = "-" /\ printed = {} /\ okf = TRUE /\ pre = {}
     /\ cnt = [m \in {"lo", "li", "dry", "run"} |-> 0]
@@ -240,7 +265,8 @@ LiTemplates ==  \* _list_inputs_only: generator.get_templates, then support_gene
 
 LiDsdl ==       \* ... then the source files of get_all_types / get_all_datatypes of the ROOT namespace tree
     /\ pc = "li_dsdl"
-    /\ LET d == IF GeneratesTypes(opts) THEN {"dsdlR"} \cup (IF ListDeps /\ opts.lookup THEN {"dsdlD"} ELSE {}) ELSE {}
+    /\ LET own == OwnByPrefix /\ opts.shape = "sibling"     \* the dependencies' paths begin like the root folder's path
+           d == IF GeneratesTypes(opts) THEN {"dsdlR"} \cup (IF ListDeps /\ opts.lookup /\ ~own THEN {"dsdlD"} ELSE {}) ELSE {}
        IN printed' = printed \cup {InFile(f) : f \in d}
     /\ pc' = "exit"
     /\ UNCHANGED <<opts, pfile, pert, out, mode, okf, pre, cnt, res, ps>>
